@@ -1,12 +1,59 @@
-(* C06 - threshold shares reconstruct the unique group signature (placeholder: theorems are added
-   as Proofs/ThresholdProofs.v grows). *)
-From Coq Require Import ZArith NArith List Bool.
-From V Require Import Model.Threshold.
+(* C06 - threshold shares reconstruct the unique group signature for any >= t+1 signers. *)
+From Coq Require Import ZArith NArith List Bool Field.
+From V Require Import Lib.FermatZ Prim.Bls12 Model.Threshold Proofs.ThresholdProofs Proofs.LagrangeField Proofs.LagrangeModR.
 Import ListNotations.
 Open Scope Z_scope.
 
-(* the routine and the textbook formula agree on concrete signer sets straddling the limb batches
-   (bounded check, labelled as such; the unbounded theorem is in Proofs/ThresholdProofs.v) *)
+(* The uint64 limb products of Fr_lagrange_coeff_at_zero never wrap: indices at most 255,
+   at most [loops] = 64 / MAX_IND_BITS (regenerated constant) factors per limb. *)
+Theorem C06_limb_products_exact :
+  forall idx xi i, inrange idx -> 1 <= xi <= 255 ->
+  forall cnt j m num den sign,
+    (m + cnt <= 8)%nat -> 0 <= num <= 255 ^ Z.of_nat m -> 0 <= den <= 255 ^ Z.of_nat m ->
+    batch idx xi i j cnt num den sign = batch_nowrap idx xi i j cnt num den sign.
+Proof. exact limb_products_exact. Qed.
+Print Assumptions C06_limb_products_exact.
+
+(* The batched routine with its separate sign bit computes
+   prod_{j<>i} x_j * (prod_{j<>i} (x_j - x_i))^(-1) mod r, for every list of indices in [1,255]
+   (any length, any order) and every position i. *)
+Theorem C06_lagrange_code_eq_formula :
+  forall idx i, inrange idx -> (i < length idx)%nat -> lagrange_coeff idx i = lagrange_formula idx i.
+Proof. exact lagrange_code_eq_formula. Qed.
+Print Assumptions C06_lagrange_code_eq_formula.
+
+Theorem C06_lagrange_formula_eq_spec :
+  forall idx i, (i < length idx)%nat -> lagrange_formula idx i = lagrange_spec idx i.
+Proof. exact lagrange_formula_eq_spec. Qed.
+
+(* Lagrange interpolation at zero over any field: any polynomial of degree < #points *)
+Theorem C06_interpolation_at_zero_any_field :
+  forall (K : Type) k0 k1 kadd kmul ksub kopp kdiv kinv
+         (Kfield : field_theory k0 k1 kadd kmul ksub kopp kdiv kinv (@eq K)) (xs a : list K),
+    NoDup xs -> (length a <= length xs)%nat ->
+    fold_right kadd k0 (map (fun i => kmul (lambda K k0 k1 kmul ksub kdiv xs i) (peval K k0 kadd kmul a (nth i xs k0))) (seq 0 (length xs)))
+    = peval K k0 kadd kmul a k0.
+Proof. intros. eapply interpolation_at_zero; eassumption. Qed.
+Print Assumptions C06_interpolation_at_zero_any_field.
+
+(* THE reconstruction statement at the level of scalars: for every dealer polynomial of degree at
+   most t (coefficients a, reduced mod r) and every list of t+1 or more DISTINCT signer indices in
+   ANY order, the coefficients computed by the C routine combine the shares P(x_i) into P(0).
+   In G1 this is: sum_i lambda_i * [P(x_i)]H = [P(0)]H, the group signature.  r prime is explicit. *)
+Theorem C06_reconstruct_any_subset_any_order :
+  primeZ rZ -> forall (idx a : list Z),
+    NoDup idx -> inrange idx -> (length a <= length idx)%nat -> Forall (fun c => 0 <= c < rZ) a -> a <> [] ->
+    fold_left (fun acc i => (acc + lagrange_coeff idx i * poly_eval a (nth i idx 0)) mod rZ)
+              (seq 0 (length idx)) 0
+    = nth 0 a 0.
+Proof. exact code_coefficients_interpolate. Qed.
+Print Assumptions C06_reconstruct_any_subset_any_order.
+
+(* non-vacuity: concrete indices straddling the 8-per-limb batches meet the hypotheses, and the routine
+   agrees with the formula there (bounded check, labelled as such) *)
+Example C06_hypotheses_satisfiable :
+  NoDup [9;1;2;3;4;5;6;7;8;250] /\ inrange [9;1;2;3;4;5;6;7;8;250].
+Proof. split; [repeat constructor; cbn; intuition discriminate|repeat constructor; cbn; discriminate]. Qed.
 Example C06_lagrange_small_sets :
   forallb (fun idx => forallb (fun i => lagrange_coeff_with inv_r_fast idx i =? lagrange_spec idx i) (seq 0 (length idx)))
           [[1;2;3]; [9;1;2;3;4;5;6;7;8;250]; [255;254;253;252;251;250;249;248;247]] = true.
